@@ -9,6 +9,8 @@ Section LdaProofs.
   Add Field FF2 : (@Fth F I L).
   Variable inner : mat F -> bool -> list (vec F) -> option (list (vec F)) -> list (vec F).
 
+  Implicit Types (A : mat F) (x y b v u r rl sol rhs xn : vec F) (m : list bool).
+
   Local Notation "0" := f0.
   Local Infix "+" := fadd.
   Local Infix "*" := fmul.
